@@ -352,7 +352,7 @@ func init() {
 			return []mon.PhaseSpec{{Name: "histories", Flavour: "race"}}
 		},
 		Run: func(c *mon.Ctx) {
-			n := c.Pick(30000, 1000000)
+			n := c.Pick(30000, 4000000)
 			ev := c.Counter("evaluations")
 			nt := c.DistinctSet("nontrivial")
 			c.ForEach(n, func(w, i int) {
